@@ -1,6 +1,7 @@
 package symex
 
 import (
+	"math/big"
 	"fmt"
 	"go/token"
 	"go/types"
@@ -392,6 +393,17 @@ func (e *Engine) execSimple(st *State, instr ssa.Instruction) {
 		x := e.get(st, in.X)
 		switch in.Op {
 		case token.MUL:
+			if w, ok := x.(IfaceWordsV); ok && w.Idx != nil {
+				// the type word (0) and the data word (1) are functions of the interface value
+				av := e.load(st, w.Ptr, in.Pos()).(AnyV)
+				e.note("interface header read through unsafe.Pointer: type/data word modelled as a function of the interface value (A-UNSAFE)")
+				smt.DeclareFun("any_typeword", []smt.Sort{smt.Any}, smt.Int)
+				smt.DeclareFun("any_dataword", []smt.Sort{smt.Any}, smt.Int)
+				fr.regs[in] = IntV{smt.Ite(smt.Eq(w.Idx, smt.IntC(0)), smt.App("any_typeword", smt.Int, av.T), smt.App("any_dataword", smt.Int, av.T))}
+				st.assume(smt.Le(smt.IntC(0), fr.regs[in].(IntV).T))
+				st.assume(smt.Le(fr.regs[in].(IntV).T, smt.BigC(maxUint64)))
+				break
+			}
 			fr.regs[in] = e.load(st, x.(PtrV), in.Pos())
 		case token.NOT:
 			fr.regs[in] = BoolV{smt.Not(x.(BoolV).T)}
@@ -440,6 +452,13 @@ func (e *Engine) execSimple(st *State, instr ssa.Instruction) {
 	case *ssa.IndexAddr:
 		x := e.get(st, in.X)
 		idx := e.get(st, in.Index).(IntV).T
+		if w, ok := x.(IfaceWordsV); ok {
+			// word k of an interface header (k is 0 or 1 by the array type)
+			e.safety(st, "index", smt.And(smt.Le(smt.IntC(0), idx), smt.Lt(idx, smt.IntC(2))), in.Pos())
+			w.Idx = idx
+			fr.regs[in] = w
+			break
+		}
 		switch s := x.(type) {
 		case SliceV:
 			e.safety(st, "index", smt.And(smt.Le(smt.IntC(0), idx), smt.Lt(idx, s.Len)), in.Pos())
@@ -539,6 +558,10 @@ func (e *Engine) execSimple(st *State, instr ssa.Instruction) {
 	case *ssa.ChangeType:
 		fr.regs[in] = e.convert(st, e.get(st, in.X), in.X.Type(), in.Type(), in.Pos())
 	case *ssa.Convert:
+		if v, ok := e.ifaceWords(st, in); ok {
+			fr.regs[in] = v
+			break
+		}
 		fr.regs[in] = e.convert(st, e.get(st, in.X), in.X.Type(), in.Type(), in.Pos())
 	case *ssa.TypeAssert:
 		e.execTypeAssert(st, in)
@@ -764,4 +787,37 @@ func recvString(t types.Type) string {
 		s = s[i+1:]
 	}
 	return s
+}
+
+// IfaceWordsV is (*[2]uintptr)(unsafe.Pointer(&iface)): a view of an interface header (Idx set: the address of one word).
+type IfaceWordsV struct {
+	Ptr PtrV
+	Idx *smt.Term
+}
+
+var maxUint64 = new(big.Int).SetUint64(^uint64(0))
+
+// ifaceWords recognises the two conversions of the idiom (*[2]uintptr)(unsafe.Pointer(&x)) for an interface variable x.
+func (e *Engine) ifaceWords(st *State, in *ssa.Convert) (Value, bool) {
+	from, to := in.X.Type(), in.Type()
+	if b, ok := to.Underlying().(*types.Basic); ok && b.Kind() == types.UnsafePointer {
+		if p, ok := from.Underlying().(*types.Pointer); ok {
+			if _, ok := p.Elem().Underlying().(*types.Interface); ok {
+				if pv, ok := e.get(st, in.X).(PtrV); ok {
+					return IfaceWordsV{Ptr: pv}, true
+				}
+			}
+		}
+		return nil, false
+	}
+	if b, ok := from.Underlying().(*types.Basic); ok && b.Kind() == types.UnsafePointer {
+		if w, ok := e.get(st, in.X).(IfaceWordsV); ok {
+			if p, ok := to.Underlying().(*types.Pointer); ok {
+				if a, ok := p.Elem().Underlying().(*types.Array); ok && a.Len() == 2 {
+					return w, true
+				}
+			}
+		}
+	}
+	return nil, false
 }
